@@ -58,6 +58,12 @@ ASSUMPTIONS = [
     "'Unnamed' (fingerprints always differ): a directory is identified by the whole LongName",
     "tagged preludes: the creation is started while the unsubscribing SETEVENTS of an earlier HS_DESC listener is still unanswered "
     "(an errback retrying a refused ADD_ONION at once; an application listener removed just before)",
+    "a directory may be tried again after its result (UPLOAD d again, then a second UPLOADED / FAILED or nothing): the new attempt is "
+    "outstanding until its own result, except that a directory which already succeeded is never outstanding again (UPLOADED then UPLOAD "
+    "then FAILED / nothing: a success stays a success); an earlier failure of a directory does not matter once its retry succeeded "
+    "(tagged +own-directory-tried-again-after=FAILED|UPLOADED)",
+    "events whose address field is the token UNKNOWN (HS_DESC FAILED / REQUESTED for a fetch by descriptor id) are not the service's: "
+    "treated like the second service's events (never change the outcome)",
     "FAILED events carry REASON=UPLOAD_REJECTED, REASON=UNEXPECTED or no REASON field: all are upload failures of the named service",
     "tagged classes in which create() fails for a reason that is not Tor's answer: cancelled by the caller while the creating command / the "
     "wait's own SETEVENTS is unanswered, TorConfig.save() refusing a second service for an already configured directory: the cleanup clause applies",
@@ -86,12 +92,14 @@ FLOORS = {
               "cleanup_checked": 800, "metamorphic_pairs": 500, "liveness_obligations": 500,
               "cases_with_repeated_own_report": 100, "rejected_cases": 10,
               "cases_with_colliding_own_hsdir_nicknames": 400, "cases_started_in_unsubscribe_window": 60,
+              "cases_with_own_retry": 100, "cases_with_unknown_address_events": 100,
               "reach:txtorcon.onion:_await_descriptor_upload": 1200,
               "reach:txtorcon.torcontrolprotocol:TorControlProtocol.remove_event_listener": 500},
     "thorough": {"evaluations": 60000, "prefix_checks": 400000, "events_delivered": 250000, "outcomes_compared": 40000,
                  "cleanup_checked": 30000, "metamorphic_pairs": 20000, "liveness_obligations": 20000,
                  "cases_with_repeated_own_report": 2000, "rejected_cases": 10,
                  "cases_with_colliding_own_hsdir_nicknames": 20000, "cases_started_in_unsubscribe_window": 1000,
+                 "cases_with_own_retry": 1000, "cases_with_unknown_address_events": 500,
                  "reach:txtorcon.onion:_await_descriptor_upload": 60000},
 }
 
@@ -132,7 +140,10 @@ def hsdir_longname(style, i):
     return fp
 
 
-ACT = {"U": "UPLOAD", "S": "UPLOADED", "F": "FAILED"}
+ACT = {"U": "UPLOAD", "S": "UPLOADED", "F": "FAILED", "Q": "REQUESTED"}
+# not the own service: "f" = a second onion service, "x" = events whose address field is the token UNKNOWN
+# (legal per control-spec, e.g. a descriptor fetched by its id that failed / was requested)
+FOREIGN = ("f", "x")
 X = 9          # a directory the own service never uses
 
 
@@ -200,6 +211,44 @@ def with_duplicates(h):
     return out
 
 
+def with_retry(h):
+    """histories in which ONE directory is tried again after its result: UPLOAD d at any later position, then
+    (optionally) the second result, UPLOADED or FAILED, at any position after that"""
+    out = []
+    for i, (a, d) in enumerate(h):
+        if a == "U":
+            continue
+        for j in range(i + 1, len(h) + 1):
+            h2 = h[:j] + [("U", d)] + h[j:]
+            out.append(h2)                                  # the retry stays outstanding
+            for k in range(j + 1, len(h2) + 1):
+                for r in "SF":
+                    out.append(h2[:k] + [(r, d)] + h2[k:])
+    return out
+
+
+def retry_cases(maxn, minn=1):
+    for n in range(minn, maxn + 1):
+        for h in histories(list(range(n)), True):
+            for h2 in with_retry(h):
+                yield [["R"]] + [["o", a, d] for (a, d) in h2]
+
+
+def unknown_address_cases(maxn):
+    """own history x one or two events with the address token UNKNOWN (a failed / requested fetch by descriptor id)
+    naming an own or another directory, every interleaving; reply first"""
+    for n in range(1, maxn + 1):
+        pool = list(range(n)) + [X]
+        for h in histories(list(range(n)), True):
+            own = [["o", a, d] for (a, d) in h]
+            xs = [[["x", "F", d]] for d in pool] + [[["x", "Q", d], ["x", "F", d]] for d in pool[:n]]
+            if n > 1:
+                xs.append([["x", "F", 0], ["x", "F", 1]])
+            for xe in xs:
+                for mg in merges(own, xe):
+                    yield [["R"]] + mg
+
+
 def dup_cases(maxn, minn=1):
     for n in range(minn, maxn + 1):
         for h in histories(list(range(n)), True):
@@ -259,7 +308,24 @@ def random_case(rnd):
     rnd.shuffle(pool)
     fo = [["f", a, d] for (a, d) in random_history(rnd, pool[:m])]
     seq = random_merge(rnd, own, fo)
-    if rnd.random() < 0.25:           # a repeated report of an own result
+    for k, t in enumerate(seq):       # some foreign FAILED events carry the address token UNKNOWN instead
+        if t[0] == "f" and t[1] == "F" and rnd.random() < 0.3:
+            seq[k] = ["x", "F", t[2]]
+    if rnd.random() < 0.2:            # a directory is tried again after its result
+        res = [k for k, t in enumerate(seq) if t[0] == "o" and t[1] != "U"]
+        if res:
+            k = rnd.choice(res)
+            d = seq[k][2]
+            j = rnd.randint(k + 1, len(seq))
+            seq2 = seq[:j] + [["o", "U", d]] + seq[j:]
+            if rnd.random() < 0.8:
+                j2 = rnd.randint(j + 1, len(seq2))
+                seq2 = seq2[:j2] + [["o", rnd.choice("SF"), d]] + seq2[j2:]
+            if not known_trigger(seq2):
+                # (schedules that also contain the open foreign-UPLOADED finding's trigger are classified under
+                # that finding's keys: keep retries out of them so that the two mechanisms stay apart)
+                seq = seq2
+    elif rnd.random() < 0.25:         # a repeated report of an own result
         res = [k for k, t in enumerate(seq) if t[0] == "o" and t[1] != "U"]
         if res:
             k = rnd.choice(res)
@@ -321,7 +387,16 @@ def random_merge(rnd, a, b):
 # reference decision procedure
 
 def reference(stimuli, await_all):
-    att, ok, failed = set(), set(), set()
+    """Reference decision procedure.  A directory may be tried again (UPLOAD d after a result for d): the new
+    attempt is outstanding until its own result arrives.  Reading of the statement used here:
+      success (default mode): an own UPLOADED was seen;
+      success (await-all)   : no own attempt is outstanding and an own UPLOADED was seen (an earlier failure of a
+                              directory whose retry succeeded does not matter; a directory that has succeeded is never
+                              outstanding again: UPLOADED -> UPLOAD -> FAILED/nothing leaves it a success);
+      failure               : there was an attempt, none is outstanding, and no own UPLOADED was ever seen."""
+    att, ok, failed = set(), set(), set()       # directories ever announced / ever confirmed / ever failed
+    pending = set()                             # directories whose latest attempt has no result yet
+    last = {}                                   # directory -> "S" | "F" (latest result)
     replied = False
     reply_at = None
     own_before_reply = False
@@ -340,33 +415,58 @@ def reference(stimuli, await_all):
             a, d = s[1], s[2]
             if a == "U":
                 att.add(d)
+                if d not in ok:
+                    # a directory that already holds the descriptor is not outstanding again when Tor
+                    # refreshes it: a success stays a success, whatever the re-upload's result
+                    pending.add(d)
                 if replied:
                     att_post.add(d)
             elif a == "S":
                 ok.add(d)
+                pending.discard(d)
+                last[d] = "S"
             else:
                 failed.add(d)
+                pending.discard(d)
+                last[d] = "F"
         if await_all:
-            c_ok = bool(ok) and att <= (ok | failed)
+            c_ok = bool(ok) and not pending
         else:
             c_ok = bool(ok)
         can_ok.append(c_ok)
-        can_fail.append(bool(att) and att <= failed and not ok)
+        can_fail.append(bool(att) and not pending and not ok)
         any_own_ok.append(bool(ok))
         any_own_fail.append(bool(failed))
         # own events BEFORE the creating reply (Tor does not send them) may be taken into account by a
         # correct implementation (reading A = can_ok/can_fail above) or ignored (reading B: only the
         # attempts announced after the reply count); what no reading allows is completing while an attempt
         # announced after the reply is unresolved, or failing while one of those has not failed
+        post_pending = pending & att_post
         if await_all:
-            len_ok.append(c_ok or (bool(ok) and att_post <= (ok | failed)))
+            len_ok.append(c_ok or (bool(ok) and not post_pending))
         else:
             len_ok.append(bool(ok))
-        len_fail.append(can_fail[-1] or (bool(att_post) and att_post <= failed))
+        len_fail.append(can_fail[-1] or (bool(att_post) and not post_pending
+                                         and all(last.get(d) == "F" for d in att_post)))
     return {"can_ok": can_ok, "can_fail": can_fail, "any_own_ok": any_own_ok, "any_own_fail": any_own_fail,
             "lenient_ok": len_ok, "lenient_fail": len_fail,
             "reply_at": reply_at,
             "own_before_reply": own_before_reply, "own_events": own_seen}
+
+
+def has_retry(stimuli):
+    """an own UPLOAD for a directory that already has an own result -> which results were retried
+    ("FAILED", "UPLOADED" or "FAILED,UPLOADED"), "" if there is no retry"""
+    done = {}
+    kinds = set()
+    for s in stimuli:
+        if s[0] == "o":
+            if s[1] == "U":
+                if s[2] in done:
+                    kinds.add(ACT[done[s[2]]])
+            else:
+                done[s[2]] = s[1]
+    return ",".join(sorted(kinds))
 
 
 def known_trigger(stimuli):
@@ -408,7 +508,8 @@ def describe(stimuli, p):
     if s[0] == "o":
         return "own-" + ACT[s[1]]
     att = {t[2] for t in stimuli[:p] if t[0] == "o" and t[1] == "U"}
-    return "foreign-%s-on-%s" % (ACT[s[1]], "own-attempted-dir" if s[2] in att else "dir-not-own-attempted")
+    return "%s-%s-on-%s" % ("foreign" if s[0] == "f" else "unknown-address", ACT[s[1]],
+                            "own-attempted-dir" if s[2] in att else "dir-not-own-attempted")
 
 
 def mode_name(case):
@@ -418,7 +519,9 @@ def mode_name(case):
 def input_class(case, what):
     if known_trigger(case["stimuli"]):
         return mode_name(case) + "+foreign-UPLOADED-on-own-attempted-dir"
-    if has_own_duplicate(case["stimuli"]):
+    if has_retry(case["stimuli"]):
+        what += "+own-directory-tried-again-after=" + has_retry(case["stimuli"])
+    elif has_own_duplicate(case["stimuli"]):
         what += "+own-report-repeated"
     return mode_name(case) + "+" + what
 
@@ -596,14 +699,20 @@ def execute(case):
                 if special not in ("rejected", "badkey", "dupdir"):
                     tor.release()
             else:
-                who = foreign if s[0] == "f" else addr
+                who = foreign if s[0] == "f" else ("UNKNOWN" if s[0] == "x" else addr)
                 if s[0] == "n":
                     sent = tor.hs_desc("CREATED", who, "UNKNOWN", replica=0)
                 else:
-                    sent = tor.hs_desc(ACT[s[1]], who, dirname(s[2]),
-                                       descid=AO.descriptor_id(who, s[2]) if s[1] != "S" else None,
-                                       reason=fail_reason(case, s[2]) if s[1] == "F" else None)
-                    if s[1] == "F":
+                    if s[0] == "x":
+                        # a descriptor fetch by id: Tor has no address to report
+                        sent = tor.hs_desc(ACT[s[1]], who, dirname(s[2]), auth="NO_AUTH",
+                                           descid=AO.descriptor_id("fetch", s[2]),
+                                           reason=("NOT_FOUND", "QUERY_REJECTED", "UNEXPECTED")[s[2] % 3] if s[1] == "F" else None)
+                    else:
+                        sent = tor.hs_desc(ACT[s[1]], who, dirname(s[2]),
+                                           descid=AO.descriptor_id(who, s[2]) if s[1] != "S" else None,
+                                           reason=fail_reason(case, s[2]) if s[1] == "F" else None)
+                    if s[1] == "F" and s[0] != "x":
                         r.reasons.add(fail_reason(case, s[2]) or "none")
                 if sent:
                     r.sent += 1
@@ -650,7 +759,7 @@ _PROJ = {}
 
 def projected(case):
     """the same case without the foreign service's events (cached)"""
-    st = [s for s in case["stimuli"] if s[0] != "f"]
+    st = [s for s in case["stimuli"] if s[0] not in FOREIGN]
     # the own events keep the REASON= fields they have in the original schedule
     shift = case.get("reason_shift")
     if shift is None:
@@ -697,7 +806,8 @@ def run_case(case, rec):
             what += "+other-HS_DESC-listener-registered"
         if case.get("prelude"):
             what += "+" + case["prelude"]
-        if not special and name_style(case) in (1, 2) and len({t[2] for t in stimuli if t[0] == "o"}) > 1:
+        if not special and not has_retry(stimuli) and name_style(case) in (1, 2) \
+                and len({t[2] for t in stimuli if t[0] == "o"}) > 1:
             what += "+own-hsdir-nicknames-collide"
         rec.violation(clause, what if special else input_class(case, what), detail, case)
 
@@ -742,7 +852,7 @@ def run_case(case, rec):
             else:
                 if not any(just_fail[:p + 1]):
                     V("failed-although-not-all-own-uploads-failed", "trigger=" + describe(stimuli, p), detail)
-            if stimuli[p][0] == "f":
+            if stimuli[p][0] in FOREIGN:
                 V("fired-at-foreign-event", "trigger=" + describe(stimuli, p), detail)
         # ---- liveness at quiescence -------------------------------------------------------------
         if lenient:
@@ -759,19 +869,19 @@ def run_case(case, rec):
                     V("not-completed-at-quiescence",
                       "expected=%s+decided-by=%s" % ("success" if want == "ok" else "failure", describe(stimuli, q)), detail)
         # ---- metamorphic: foreign events removed ------------------------------------------------
-        if any(s[0] == "f" for s in stimuli) and not lenient:
+        if any(s[0] in FOREIGN for s in stimuli) and not lenient:
             st2, (p2, ok2, h2) = projected(case)
             if not h2:
                 rec.count("metamorphic_pairs")
                 # index of the p-th stimulus in the projection
                 mapped = None
-                if p is not None and stimuli[p][0] != "f":
-                    mapped = sum(1 for s in stimuli[:p + 1] if s[0] != "f") - 1
+                if p is not None and stimuli[p][0] not in FOREIGN:
+                    mapped = sum(1 for s in stimuli[:p + 1] if s[0] not in FOREIGN) - 1
                 same = (p is None and p2 is None) or (p is not None and p2 is not None and mapped == p2
                                                       and bool(run.ok) == bool(ok2))
                 if not same:
                     upto = len(stimuli) if p is None else p + 1
-                    kinds = sorted({describe(stimuli, i) for i in range(upto) if stimuli[i][0] == "f"})
+                    kinds = sorted({describe(stimuli, i) for i in range(upto) if stimuli[i][0] in FOREIGN})
                     V("foreign-events-changed-outcome", "foreign=" + ",".join(kinds),
                       dict(detail, without_foreign={"fired_at": p2, "ok": ok2, "schedule": signature(st2)}))
 
@@ -818,8 +928,12 @@ def run_case(case, rec):
         rec.count("cases_started_in_unsubscribe_window")
     for rs in run.reasons:
         rec.seen("failed_reasons_delivered", rs)
-    if has_own_duplicate(stimuli):
+    if has_retry(stimuli):
+        rec.count("cases_with_own_retry")
+    elif has_own_duplicate(stimuli):
         rec.count("cases_with_repeated_own_report")
+    if any(t[0] == "x" for t in stimuli):
+        rec.count("cases_with_unknown_address_events")
     rec.seen("outcomes", "%s/%s/%s" % (case["kind"], mode_name(case), outcome))
     rec.seen("schedules", signature(stimuli))
     rec.case(case, nontrivial=run.delivered_own > 0 or special is not None)
@@ -873,6 +987,16 @@ def shard_cases(spec):
                     yield {"kind": kind, "await_all": aw, "stimuli": st}
     elif mode == "foreign":
         for st in foreign_cases(spec["own_n"], spec["foreign_m"], tuple(spec.get("reply_modes", ("first", "before-own")))):
+            for aw in (False, True):
+                for kind in spec.get("kinds", ("eph3", "fs3")):
+                    yield {"kind": kind, "await_all": aw, "stimuli": st}
+    elif mode == "retries":
+        for st in retry_cases(spec["maxn"], spec.get("minn", 1)):
+            for aw in (False, True):
+                for kind in spec.get("kinds", ("eph3", "fs3", "auth-key")):
+                    yield {"kind": kind, "await_all": aw, "stimuli": st}
+    elif mode == "unknownaddr":
+        for st in unknown_address_cases(spec["maxn"]):
             for aw in (False, True):
                 for kind in spec.get("kinds", ("eph3", "fs3")):
                     yield {"kind": kind, "await_all": aw, "stimuli": st}
@@ -968,6 +1092,10 @@ def plan(tier, seed):
                           "part": i, "parts": 2, "sample_every": 300,
                           "name": "sample of own 2 dirs x foreign 2 dirs interleavings"})
         specs.append({"mode": "special", "name": "rejected creating command / discarded key of a basic-auth service / await_all_uploads=None"})
+        specs.append({"mode": "retries", "maxn": 2, "sample_every": 3,
+                      "name": "sample of own orderings over 1-2 directories with one directory tried again (second attempt pending / UPLOADED / FAILED at every position)"})
+        specs.append({"mode": "unknownaddr", "maxn": 2, "sample_every": 2,
+                      "name": "sample of own 1-2 dirs x events with the address token UNKNOWN (FAILED / REQUESTED) x every interleaving"})
         specs.append({"mode": "dups", "maxn": 2,
                       "name": "own orderings over 1-2 directories with one report repeated at every later position x mode x 3 kinds"})
         specs.append({"mode": "dups", "maxn": 3, "minn": 3, "sample_every": 12,
@@ -996,6 +1124,15 @@ def plan(tier, seed):
                           "part": i, "parts": 8, "timeout_s": 3000,
                           "name": "own 3 dirs x foreign 1 dir x every interleaving x mode"})
         specs.append({"mode": "special", "name": "rejected creating command / discarded key of a basic-auth service / await_all_uploads=None"})
+        for i in range(2):
+            specs.append({"mode": "retries", "maxn": 2, "part": i, "parts": 2,
+                          "name": "own orderings over 1-2 directories with one directory tried again (second attempt pending / UPLOADED / FAILED at every position) x mode x 3 kinds"})
+        for i in range(4):
+            specs.append({"mode": "retries", "maxn": 3, "minn": 3, "part": i, "parts": 4, "sample_every": 6, "timeout_s": 3000,
+                          "name": "sample of own orderings over 3 directories with one directory tried again"})
+        for i in range(2):
+            specs.append({"mode": "unknownaddr", "maxn": 2, "part": i, "parts": 2, "kinds": ["eph3", "fs3", "auth-key"],
+                          "name": "own 1-2 dirs x events with the address token UNKNOWN (FAILED / REQUESTED) x every interleaving x mode x 3 kinds"})
         for i in range(3):
             specs.append({"mode": "dups", "maxn": 3, "part": i, "parts": 3,
                           "name": "own orderings over 1-3 directories with one report repeated at every later position x mode x 3 kinds"})
